@@ -2,7 +2,7 @@
     of the library as a function from a list of byte strings to a result
     class and a list of byte strings (the projected observables).  The Go
     harness implements the same table on top of the real code. *)
-From DV Require Import Base.Bytes Label.Model V4.Model V4.Accessors V4.Builders V6.Model V6.Dump V6.Relay Raw.Model Client.Call Client.Routing Client.Macro Client.Delivery Client.Lease Server.Model.
+From DV Require Import Base.Bytes Label.Model V4.Model V4.Accessors V4.Builders V6.Model V6.Dump V6.Relay Raw.Model Client.Call Client.Routing Client.Macro Client.Delivery Client.Reuse Client.Lease Server.Model.
 
 
 (** entry 1: rfc1035label.FromBytes(b) -> Labels *)
@@ -288,6 +288,17 @@ Definition e_held_matcher (args : list bytes) : res (list bytes) :=
   | _ => Err
   end.
 
+(** * an id reused at once after a call that returned with a full buffer (entries 76 nclient4, 77 nclient6):
+      args = the payloads that arrive for the first call, the payload of the second call's answer;
+      result = what the first call received, what the second received *)
+Definition e_reuse (args : list bytes) : res (list bytes) :=
+  match args with
+  | ps :: [pb] :: _ =>
+    let '(ga, gb, _) := reuse_scenario (map bnat ps) (bnat pb) in
+    Ok [map (fun p => n2b (N.of_nat p)) ga; map (fun p => n2b (N.of_nat p)) gb]
+  | _ => Err
+  end.
+
 (** * servers (entries 80 server4, 81 server6): args = one per ReadFrom result *)
 Definition fixed_peer_v4 : bytes := [n2b 10; x01; x02; x03].
 Definition fixed_peer_v6 : bytes := [xfe; n2b 128] ++ zeros 13 ++ [x01].
@@ -374,6 +385,8 @@ Definition run (entry : N) (args : list bytes) : res (list bytes) :=
   | 72 => e_routing args
   | 74 => e_held_matcher args
   | 75 => e_held_matcher args
+  | 76 => e_reuse args
+  | 77 => e_reuse args
   | 80 => e_server4 args
   | 90 => e_lease4 args
   | 91 => e_lease6 args
